@@ -436,7 +436,7 @@ func (s *schedSUT) apply(f []string) (out string) {
 		}
 		s.noteCreation(t, presentBefore, r)
 		return s.out(r)
-	case f[0] == "dbegin" && (len(f) == 4 && f[2] == "delshard" || len(f) == 5 && f[2] == "prune"):
+	case f[0] == "dbegin" && (len(f) == 4 && f[2] == "delshard" || len(f) == 5 && f[2] == "prune" || len(f) == 6 && f[2] == "delsvc"):
 		o, ok := parseOp(f[2:])
 		if !ok || s.threads[f[1]] != nil || s.inflight != nil {
 			return "bad-op"
@@ -449,6 +449,32 @@ func (s *schedSUT) apply(f []string) (out string) {
 		s.spawn(t, func() string { return s.run(o) })
 		return s.afterDelete(t)
 	case f[0] == "step" && len(f) == 2 && s.inflight != nil:
+		if t := s.threads[f[1]]; t != nil && t != s.inflight && !t.isDelete && !t.finished && !t.blocked && t.at == "lookup:after-miss" {
+			// an update parked in GetOrCreateEndpointShard's slow path, just before e.mu.Lock(): released while the
+			// delete holds the index lock it must wait for it
+			select {
+			case t.release <- struct{}{}:
+			case <-time.After(gateTimeout):
+				return "timeout"
+			}
+			t.blocked = true
+			var p string
+			switch s.settle(t, &p) {
+			case "parked":
+				t.blocked = false
+				s.notAtomic = append(s.notAtomic, t.name)
+				return "not-blocked parked"
+			case "done":
+				t.blocked, t.finished = false, true
+				s.hist[t.hid].fin, s.hist[t.hid].open = s.line, false
+				s.notAtomic = append(s.notAtomic, t.name)
+				return "not-blocked done " + p
+			case "timeout":
+				return "timeout"
+			}
+			s.waiting = append(s.waiting, t)
+			return "blocked"
+		}
 		if s.threads[f[1]] != s.inflight {
 			return "bad-op"
 		}
@@ -631,7 +657,25 @@ func genSched(seed uint64, n int, outp string, header string) {
 				name := "D" + strconv.Itoa(deletes)
 				deletes++
 				sk := wire.Pick(r, g.shards)
-				if r.Chance(1, 2) {
+				// sometimes an update is first parked in the slow path of its lookup (a service nobody has seen: the
+				// read-locked lookup misses, the goroutine stops before e.mu.Lock()); stepped while the delete is in
+				// flight it must wait for the index lock
+				var slow []string
+				if r.Chance(1, 3) && begun < nthreads+1 {
+					tn := "T" + strconv.Itoa(begun)
+					begun++
+					out.Line("begin", tn, wire.Pick(r, g.shards).enc(), pair{"n" + strconv.Itoa(c%7) + ".com", "ns8"}.enc(), encEps([]*model.IstioEndpoint{genEp(r)}))
+					active = append(active, tn)
+					slow = append(slow, tn)
+				}
+				if r.Chance(1, 4) {
+					// DeleteServiceShard (not preserving keys) in a goroutine of its own: it parks where it unlinks the
+					// service's entry, holding the index lock
+					sk = pair{"Mock", "c9"}
+					k := pair{"d0.com", "ns9"}
+					out.Line(opLine(op{kind: "upd", sk: sk, k: k, eps: []*model.IstioEndpoint{genEp(r)}})...)
+					out.Line("dbegin", name, "delsvc", sk.enc(), k.enc(), "0")
+				} else if r.Chance(1, 2) {
 					// several services that only this registry knows: the delete unlinks (and parks at) each of them
 					sk = pair{"Mock", "c9"}
 					for j, m := 0, 2+r.Intn(2); j < m; j++ {
@@ -655,6 +699,12 @@ func genSched(seed uint64, n int, outp string, header string) {
 					}
 					out.Line("begin", tn, o.sk.enc(), o.k.enc(), encEps(o.eps))
 					active = append(active, tn)
+				}
+				for _, tn := range slow {
+					out.Line("step", tn) // blocked (if the delete is still in flight)
+				}
+				if len(active) > 0 && r.Chance(1, 4) {
+					out.Line("step", wire.Pick(r, active)) // blocked if it is parked in the slow path, else refused
 				}
 				for j, m := 0, 1+r.Intn(3); j < m; j++ {
 					out.Line("step", name)
